@@ -876,6 +876,8 @@ struct BulkWorld : World
   {
     if (!mmu_on)
       return;
+    if (op.a[0] == 0 && ((uint64_t)op.a[5] >> 2) % 3 == 0)
+      return op_memcmp_count_cell(op);
     const uint32_t celloff = 64;
     uint64_t off = (uint64_t)op.a[1] & (S - 1), soff = (uint64_t)op.a[4] & (S - 1);
     if (off < 128)
@@ -918,6 +920,59 @@ struct BulkWorld : World
     if (!C->stop)
       reads_ok(allowed, "memcmp_through_pointer_cell");
     (void)got;
+  }
+
+  // memcmp whose COUNT lives in sandbox memory (a tainted_volatile reference); the guest rewrites it at the k-th access.
+  // Whatever count the comparison uses must be one that the range checks saw.
+  void op_memcmp_count_cell(const Op& op)
+  {
+    const uint32_t celloff = 72;
+    using GSZ = std::make_unsigned_t<Sbx::T_LongType>; // the guest's size_t
+    uint64_t off = 128 + (uint64_t)op.a[1] % 512, soff = S / 2 + (uint64_t)op.a[4] % 512;
+    uint64_t num1 = 1 + (uint64_t)op.a[2] % 48;
+    static const uint64_t kSecond[] = { 0, 7, 200, 400, S - 8, S, S + 1, 0xFFFFFFFFull };
+    uint64_t num2 = kSecond[(uint64_t)op.a[3] % 8];
+    // equal bytes in both operands as far as the region goes, so that the comparison runs its whole count
+    for (uint64_t i = 0; off + i < S / 2 && soff + i < S; i++)
+      impl[0]->mem.gbase[off + i] = impl[0]->mem.gbase[soff + i] = (uint8_t)(0x30 + i % 41);
+    GSZ rep = (GSZ)num1;
+    memcpy(impl[0]->mem.gbase + celloff, &rep, sizeof rep);
+    auto cell = sb[0]->UNSAFE_accept_pointer(reinterpret_cast<size_t*>(impl[0]->mem.base + celloff));
+    auto d = ptr_at<char>(0, (int64_t)off, false);
+    auto s = ptr_at<char>(0, (int64_t)soff, false);
+    CellFault cf;
+    cf.gcell = impl[0]->mem.gbase + celloff;
+    cf.k = (uint64_t)((uint64_t)op.a[5] % 5);
+    cf.value = (uint32_t)num2;
+    cf.fired = false;
+    Snap before = snap();
+    int got = 0;
+    mmu::arm(impl[0]->mem.base, S, cf.k ? cell_hook : nullptr, &cf);
+    Outcome o = attempt([&] { got = rlbox::memcmp(*sb[0], d, s, *cell).UNSAFE_unverified(); });
+    C->st.steps += mmu::g.count;
+    mmu::disarm();
+    C->ev("memcmp_with_count_cell off=%llu soff=%llu count=%llu then %llu strike@%llu fired=%d -> %s", (unsigned long long)off, (unsigned long long)soff, (unsigned long long)num1, (unsigned long long)num2, (unsigned long long)cf.k,
+          (int)cf.fired, oname(o));
+    C->probe("memcmp_count_read_from_sandbox_memory");
+    if (cf.fired)
+      C->fired("F2_count_cell_rewritten_during_memcmp");
+    Snap after = snap();
+    std::vector<Range> allowed = { Range{ 0, celloff, sizeof(GSZ) } };
+    auto fits = [&](uint64_t n) { return off + n <= S && soff + n <= S; };
+    allowed.push_back(Range{ 0, (size_t)off, (size_t)num1 });
+    allowed.push_back(Range{ 0, (size_t)soff, (size_t)num1 });
+    if (cf.fired && fits(num2)) {
+      allowed.push_back(Range{ 0, (size_t)off, (size_t)num2 });
+      allowed.push_back(Range{ 0, (size_t)soff, (size_t)num2 });
+    }
+    if (!diff_ok(before, after, { Range{ 0, celloff, sizeof(GSZ) } }, "memcmp_through_pointer_cell"))
+      return;
+    if (!cf.fired && o != OK)
+      C->violate("C10", "valid_request_refused@memcmp_through_pointer_cell", "count in a sandbox cell: %s", g_last_abort_msg.c_str());
+    else if (!cf.fired && got != 0)
+      C->violate("C10", "request_not_carried_out@memcmp_through_pointer_cell", "equal ranges of %llu bytes compare as %d", (unsigned long long)num1, got);
+    if (!C->stop)
+      reads_ok(allowed, "memcmp_through_pointer_cell");
   }
 
   void run(const Plan& p, Ctx& c) override
